@@ -16,7 +16,7 @@
 From Coq Require Import List NArith.
 From Coq Require Import Permutation.
 From Jamm Require Import Bytes Codec Tree Spec Cursor SearchFacts CursorFacts SeekFacts CodecFacts.
-From Jamm Require Engine EngineAbs SpecPath EngineFacts EngineMergeFacts EngineModifyFacts EnginePathFacts EngineSpillFacts SpecPathFacts EngineRebalanceFacts EngineBridgeFacts EnginePins EngineTxInvFacts EngineSpillBucketFacts EngineRefines EngineOwnDefs EngineOwnSpill EngineAllocInv.
+From Jamm Require Engine EngineAbs SpecPath EngineFacts EngineMergeFacts EngineModifyFacts EnginePathFacts EngineSpillFacts SpecPathFacts EngineRebalanceFacts EngineBridgeFacts EnginePins EngineTxInvFacts EngineSpillBucketFacts EngineRefines EngineOwnDefs EngineOwnSpill EngineAllocInv EngineDepth EngineNoPanic EngineSpillDepth.
 From Jamm Require Consts CLayout.
 From Coq Require String.
 Import Coq.Strings.String.StringSyntax. Delimit Scope string_scope with string.
@@ -291,3 +291,29 @@ Print Assumptions C01_engine_history_refines_reference.
 Theorem C01_target_statement_holds : EngineAbs.run_tx_refines_stmt EngineAllocInv.db_wf' EnginePathFacts.op_ok.
 Proof. exact EngineAllocInv.run_tx_refines_stmt_holds'. Qed.
 Print Assumptions C01_target_statement_holds.
+
+(* ==== no panic: on a state satisfying the complete invariant AND uniform leaf depth (re-established by every transaction, holds
+   initially), a transaction ends in Ok or in one of three Err values that are artefacts of the model (fuel; a spill-order oracle
+   that is not a permutation of the opened dirty buckets) -- never in one of the library's panic / assert / unwrap sites.
+   Without uniform depth it is false (EngineDepth/CexDepth: a strict search tree with a leaf beside a branch makes rebalance
+   merge a leaf into a branch: "incompatible data types"); that state is proved unreachable. ==== *)
+Theorem C01_engine_transaction_never_panics : forall (st : Engine.db) (ops : list Engine.op) (ord : list Bytes.bytes),
+  EngineOwnSpill.db_okz st -> EngineDepth.db_depth st -> Forall (EnginePathFacts.op_ok (Engine.d_disk st)) ops ->
+  (exists st' : Engine.db, Engine.run_tx st ops ord = Engine.Ok st') \/
+  Engine.run_tx st ops ord = Engine.Err EngineNoPanic.fuel_err \/
+  Engine.run_tx st ops ord = Engine.Err EngineNoPanic.ord_err1 \/
+  Engine.run_tx st ops ord = Engine.Err EngineNoPanic.ord_err2.
+Proof. exact EngineNoPanic.run_tx_result. Qed.
+Print Assumptions C01_engine_transaction_never_panics.
+
+Theorem C01_engine_history_never_panics : forall (P : N) (txs : list (list Engine.op * list Bytes.bytes)) (msg : String.string),
+  (0 < P)%N -> EngineAllocInv.txs_ok' (Engine.init_db P) txs ->
+  EngineRefines.run_txs (Engine.init_db P) txs <> Engine.Panic msg.
+Proof. exact EngineSpillDepth.run_txs_no_panic_init. Qed.
+Print Assumptions C01_engine_history_never_panics.
+
+Theorem C01_engine_invariant_with_depth_kept : forall (st : Engine.db) (ops : list Engine.op) (ord : list Bytes.bytes) (st' : Engine.db),
+  EngineSpillDepth.db_okd st -> Forall (EnginePathFacts.op_ok (Engine.d_disk st)) ops ->
+  Engine.run_tx st ops ord = Engine.Ok st' -> EngineRefines.readable st' -> EngineSpillDepth.db_okd st'.
+Proof. exact EngineSpillDepth.run_tx_okd. Qed.
+Print Assumptions C01_engine_invariant_with_depth_kept.
